@@ -1213,6 +1213,54 @@ Section Repaired.
     - intros q Haq Hlt _. apply Hna; trivial.
   Qed.
 
+  (* F43.  With the payload in the picture: ANY file that holds a complete footer (F1, j1)
+     with a valid payload, and in which every candidate at an aligned offset above F1 is
+     either not accepted by the framing checks or carries an INVALID payload (a torn
+     multi-page footer whose first and last page made it to the disk), is read as (F1, j1). *)
+  Definition no_valid_footer (valid : bytes -> bool) (f : bytes) (lo : N) : Prop :=
+    forall q, aligned P q -> lo < q ->
+      scan_step_repaired f q = Continue \/
+      exists p j, scan_step_repaired f q = Done (Found p j) /\ valid j = false.
+
+  Theorem C05_json_general valid f' F1 j1 :
+    aligned P F1 -> 0 < F1 ->
+    slice f' F1 (footer_len j1) = Some (footer_bytes F1 j1) ->
+    footer_len j1 < 2 ^ 32 -> F1 < 2 ^ 64 ->
+    valid j1 = true ->
+    no_valid_footer valid f' F1 ->
+    read_footer_json valid P f' = Found F1 j1.
+  Proof.
+    intros Ha Hpos Hsl HL HF Hv Hna.
+    assert (Hb : F1 + footer_len j1 <= blen f') by (apply slice_some in Hsl; tauto).
+    pose proof (footer_len_ge j1) as Hge. change (footerBegLen + footerEndLen) with 44 in Hge.
+    unfold read_footer_json.
+    apply (scan_with_reach P HP (scan_step_json valid) f' F1 (Found F1 j1)); trivial.
+    - lia.
+    - right. split; [exact Hpos|]. unfold scan_step_json.
+      rewrite (proj2 (step_at_footer f' F1 j1 Hsl HF HL)), Hv. reflexivity.
+    - intros q Haq Hlt _. unfold scan_step_json.
+      destruct (Hna q Haq Hlt) as [E|(p & j & E & Hj)]; rewrite E; [reflexivity|].
+      rewrite Hj. reflexivity.
+  Qed.
+
+  (* the pinned code on the same file: as soon as the newest accepted candidate has an
+     invalid payload, the open fails although (F1, j1) is intact *)
+  Theorem C05_json_pinned_refuted valid f' q p j :
+    aligned P q -> 0 < q -> q <= blen f' - 1 ->
+    scan_step_repaired f' q = Done (Found p j) -> valid j = false ->
+    (forall q', aligned P q' -> q < q' -> q' <= blen f' - 1 ->
+                scan_step_repaired f' q' = Continue) ->
+    read_footer_json_pinned valid P f' = ScanError.
+  Proof.
+    intros Ha Hpos Hle E Hj Habove.
+    unfold read_footer_json_pinned.
+    apply (scan_with_reach P HP (scan_step_json_pinned valid) f' q ScanError).
+    - exact Ha.
+    - exact Hle.
+    - right. split; [exact Hpos|]. unfold scan_step_json_pinned. rewrite E, Hj. reflexivity.
+    - intros q' Haq Hlt Hle'. unfold scan_step_json_pinned. rewrite (Habove q' Haq Hlt Hle'). reflexivity.
+  Qed.
+
   (* the last footer of a built file, as a slice of that file *)
   Lemma build_last_footer header rounds d1 j1 :
     let g1 := build P header rounds ++ d1 in
